@@ -277,6 +277,8 @@ fn apply(b: &mut Arc<AtomicBitmap>, m: &mut Model, op: &Op) -> bool {
                 old.reset();
             }
             Op::CloneFromInto(bytes, page) => {
+                // (the interpreter pays per page for making every page of the destination dirty)
+                let bytes = if cfg!(miri) { &(*bytes).min(300) } else { bytes };
                 let mut dst = AtomicBitmap::new(*bytes, std::num::NonZeroUsize::new((*page).max(1)).unwrap());
                 dst.set_addr_range(0, usize::MAX);
                 dst.clone_from(&**b);
